@@ -616,7 +616,7 @@ impl Prop for C03 {
         ]
     }
     fn cases(&self, tier: Tier) -> u32 {
-        tier.pick(300, 5000)
+        tier.pick(900, 5000)
     }
     fn strategy(&self, tier: Tier) -> BoxedStrategy<Case> {
         let n = tier.pick(30usize, 80usize);
